@@ -138,28 +138,31 @@ func apply(ns *nbtns.NetBIOSNameServer, c *client, in In, scribble bool) Out {
 	panic("bad op")
 }
 
+// genOp always draws the same number of choices, whatever it generates, so that the
+// minimiser can change or drop one operation without shifting the meaning of the rest.
 func genOp(ttl [3]int64, mix int) In {
+	kd, nm, gr, ad, fm := hx.G(9), hx.G(3), hx.G(2), hx.G(3), hx.G(2)
 	var k OpKind
 	switch mix {
 	case 0: // registration heavy
-		k = [...]OpKind{OpRegister, OpRegister, OpRegister, OpQuery, OpQuery, OpRelease, OpRefresh, OpMark, OpClean}[hx.G(9)]
+		k = [...]OpKind{OpRegister, OpQuery, OpRegister, OpRegister, OpQuery, OpRelease, OpRefresh, OpMark, OpClean}[kd]
 	case 1: // churn
-		k = [...]OpKind{OpRegister, OpRegister, OpRelease, OpRelease, OpQuery, OpQuery, OpRefresh, OpClean}[hx.G(8)]
+		k = [...]OpKind{OpRegister, OpQuery, OpRelease, OpRelease, OpQuery, OpRegister, OpRefresh, OpClean, OpRelease}[kd]
 	default:
-		k = OpKind(hx.G(int(OpClean) + 1))
+		k = [...]OpKind{OpRegister, OpQuery, OpRelease, OpRefresh, OpMark, OpClean, OpRegister, OpQuery, OpRelease}[kd]
 	}
 	in := In{Kind: k}
 	if k == OpClean {
 		return in
 	}
-	in.Name = hx.G(3)
+	in.Name = nm
 	if k == OpRegister {
-		in.Group = hx.G(2) == 1
+		in.Group = gr == 1
 		in.TTL = ttl[in.Name]
 	}
 	if k == OpRegister || k == OpRelease || k == OpRefresh {
-		in.Addr = hx.G(3)
-		in.Form = hx.G(2)
+		in.Addr = ad
+		in.Form = fm
 	}
 	return in
 }
@@ -185,31 +188,41 @@ func Run(seed uint64, index int64, o hx.Opts) *hx.Result {
 		rt.JumpClock(startNow)
 		// ---- generate the workload (all from the choice stream)
 		secured := hx.G(2) == 1
-		nClients := 1 + hx.G(4)
-		maxOps := 6
-		if nClients == 1 {
-			maxOps = 12
-		}
 		var ttl [3]int64
 		for i := range ttl {
 			ttl[i] = ttlChoices[1+hx.G(3)]
 		}
-		if hx.G(8) == 0 {
-			ttl[hx.G(3)] = 0
+		if z := hx.G(24); z < 3 {
+			ttl[z] = 0
 		}
 		mix := hx.G(3)
-		for c := 0; c < nClients; c++ {
-			cl := &client{id: c}
-			n := 1 + hx.G(maxOps)
-			for i := 0; i < n; i++ {
-				cl.ops = append(cl.ops, genOp(ttl, mix))
+		// fixed-width generation: all candidate operations first, the counts afterwards
+		const maxClients, maxOps, maxJumps = 4, 12, 4
+		var pool [maxClients][maxOps]In
+		for c := 0; c < maxClients; c++ {
+			for i := 0; i < maxOps; i++ {
+				pool[c][i] = genOp(ttl, mix)
 			}
-			clients = append(clients, cl)
 		}
-		nJumps := hx.G(5)
+		var jumps [maxJumps]int64
+		for i := range jumps {
+			jumps[i] = jumpChoices[hx.G(len(jumpChoices))]
+		}
+		nClients := 1 + hx.G(maxClients)
+		for c := 0; c < maxClients; c++ {
+			lim := 6
+			if nClients == 1 {
+				lim = maxOps
+			}
+			n := 1 + hx.G(lim)
+			if c < nClients {
+				clients = append(clients, &client{id: c, ops: append([]In(nil), pool[c][:n]...)})
+			}
+		}
+		nJumps := hx.G(maxJumps + 1)
 		clock = &client{id: nClients}
 		for i := 0; i < nJumps; i++ {
-			clock.ops = append(clock.ops, In{Kind: OpJump, TTL: jumpChoices[hx.G(len(jumpChoices))]})
+			clock.ops = append(clock.ops, In{Kind: OpJump, TTL: jumps[i]})
 		}
 		scribbleRun := hx.G(3) == 0
 		if o.Scenario != "" {
@@ -327,16 +340,19 @@ func toOps(hist []opRec, clipAfter uint64) []porcupine.Operation {
 	var ops []porcupine.Operation
 	for _, h := range hist {
 		ret := int64(h.Ret)
+		out := h.Out
 		if clipAfter != 0 && h.Ret > clipAfter {
+			// still pending at the end of the prefix: it may or may not have taken effect, with any result
 			ret = int64(clipAfter) + 1_000_000
+			out = Out{Wild: true}
 		}
-		ops = append(ops, porcupine.Operation{ClientId: h.Client, Input: h.In, Output: h.Out, Call: int64(h.Call), Return: ret})
+		ops = append(ops, porcupine.Operation{ClientId: h.Client, Input: h.In, Output: out, Call: int64(h.Call), Return: ret})
 	}
 	return ops
 }
 
 // checkLinearizable returns the verdict and, for an illegal history, the operation at which the
-// shortest non-linearizable prefix (by return order, pending operations kept with their real results) ends.
+// shortest non-linearizable prefix (by return order; operations still pending there may have any result) ends.
 func checkLinearizable(hist []opRec, startNow int64, seen map[uint64]struct{}) (porcupine.CheckResult, string) {
 	if len(hist) == 0 {
 		return porcupine.Ok, ""
